@@ -47,7 +47,8 @@ func NewQstick[T helper.Number]() *Qstick[T] {
 
 // Compute function takes a channel of numbers and computes the Qstick.
 func (q *Qstick[T]) Compute(openings, closings <-chan T) <-chan T {
-	qstick := helper.Subtract(closings, openings)
+	// The openings wait for the closings to arrive; they may come from the same duplicated stream.
+	qstick := helper.Subtract(closings, helper.Buffered(openings, 1))
 	qstick = q.Sma.Compute(qstick)
 
 	return qstick
